@@ -344,6 +344,25 @@ fn check_step(
             break;
         }
     }
+    // ... nor across steps, pools and configurations: every word ever handed to a child maker in
+    // this process is new (a generator re-seeded identically per pool or per step replays)
+    {
+        static SEEN: Mutex<Option<std::collections::HashSet<u64>>> = Mutex::new(None);
+        let mut seen = SEEN.lock().unwrap_or_else(|e| e.into_inner());
+        let set = seen.get_or_insert_with(std::collections::HashSet::new);
+        let mut replayed = 0usize;
+        for (_, w1, w2) in &ok_children {
+            if !set.insert(*w1) {
+                replayed += 1;
+            }
+            if !set.insert(*w2) {
+                replayed += 1;
+            }
+        }
+        if replayed > 0 && !f.iter().any(|x| x.0.ends_with("random-words-repeat")) {
+            f.push((format!("C09/{mode}/random-words-replayed"), format!("{replayed} of the {} random words drawn in this step had already been drawn in an earlier step, pool or configuration of this process", ok_children.len() * 2)));
+        }
+    }
     match result {
         Ok(()) => {
             if !errors.is_empty() {
